@@ -15,6 +15,8 @@ import AcnModel.Stochastic
 import AcnModel.StochasticLoop
 import AcnModel.SimStochastic
 import AcnModel.Gen.Consts
+import AcnModel.WireSim
+import AcnModel.SimSorted
 open Lean Acn Acn.Wire Acn.Stoch
 
 def jSnap (p : Snapshot) : Json :=
@@ -25,14 +27,14 @@ def jSnap (p : Snapshot) : Json :=
     ("swaps", jN p.swaps), ("never_charged", jN p.neverCharged), ("early_unplug", jN p.earlyUnplug),
     ("draws", jN p.draws)]
 
-def parseKind (k : String) : Except String EvKind :=
+def parseEvKind (k : String) : Except String EvKind :=
   if k == Gen.typePlugin then pure .plugin
   else if k == Gen.typeUnplug then pure .unplug
   else if k == Gen.typeRecompute then pure .recompute
   else throw s!"unknown event kind {k}"
 
 def parseEvent (j : Json) : Except String Event := do
-  pure { ts := ← getInt j "ts", kind := ← parseKind (← getStr j "kind"), sess := ← getStr j "sess" }
+  pure { ts := ← getInt j "ts", kind := ← parseEvKind (← getStr j "kind"), sess := ← getStr j "sess" }
 
 /-- raw operation stream (malformed histories): every step is executed on the current state; a
     step that raises leaves the state unchanged (as the code does: it raises before mutating) and
@@ -171,6 +173,96 @@ def runLoopSim (stations : List String) (early : Bool) (sessions : List EventCor
     ("rates", jList (fun (r : List Float) => jList jF (r.take n)) g.net.2.rates.rows),
     ("peak", jF g.net.2.peak), ("invoked", jList jN g.core.invoked)]
 
+/-- the FULL simulator on the stochastic network with the PACKAGE'S OWN algorithms as the scheduler
+    (`SimSorted.sortedSched` / `uncontrolledSched`: `Interface._active_sessions`, `_infrastructure_info`,
+    the sorted algorithms, round robin, uncontrolled charging — the models of C07 / C08) or the harness'
+    `_Sched`, on ANY network description (factory-built: EVSE kinds, voltages, constraint matrix, limits,
+    phases are static inputs).  Nothing is taken from the implementation per period: `fully_charged`,
+    the early departures, the queue, the counters and the energies all come out of the model; the only
+    dynamic input is the stream of random choices.
+    Several PHASES: a phase is one call of `Simulator.run()`; phase k+1 starts in the state in which
+    phase k stopped (normally or by a raise) — "crash, then run() again on the same object".
+    request "simreal": {"stations":[{"id","kind","V"}], "evs":[ev_wire], "period":bits, "max_recompute":n,
+                        "infra":{"M","lims","cos","sin"}, "algo":"gen"|"alt"|"zero"|"unc"|"rr"|"fcfs"|"edf"|"llf",
+                        "amps":bits, "inc":bits,
+                        "crash":null|{"t":n,"kind":"raise"|"rate","amps":bits}} -/
+def baseSched (algo : String) (amps inc : Float) (net : SimSorted.NetInfo Float) (cfg : Sim.Cfg Float) :
+    Except String (Sim.View Float → Except EventCore.Err (Sim.Schedule Float)) :=
+  if algo == "gen" || algo == "alt" || algo == "zero" then
+    pure fun v =>
+      let a := if algo == "zero" || (algo == "alt" && v.iter % 2 == 1) then 0.0 else amps
+      .ok (v.active.map (fun e => (e.station, [a])))
+  else if algo == "unc" then pure (SimSorted.uncontrolledSched infF cfg)
+  else
+    let mk (a : Sorted.Algo) (k : Sorted.SortKind) :=
+      SimSorted.sortedSched net infF cfg
+        { algo := a, sort := k, uninterrupted := false, estimate := false, inc := inc,
+          eps := fOfBits Acn.Gen.greedyEpsBits, fuel := 2000 }
+    if algo == "rr" then pure (mk .roundRobin .fcfs)
+    else if algo == "fcfs" then pure (mk .greedy .fcfs)
+    else if algo == "edf" then pure (mk .greedy .edf)
+    else if algo == "llf" then pure (mk .greedy .llf)
+    else throw s!"unknown algorithm {algo}"
+
+def jPeriod (ids : List String) (g : EventCore.CoreG (SimSt.St Float)) : Json :=
+  Json.mkObj [
+    ("snap", jSnap (g.net.1.snapshot ids)),
+    ("evse_pilot", jList jF g.net.2.evsePilot),
+    ("delivered", jList (fun (e : Evse.Ev Float) => Json.arr #[jS e.session, jF e.delivered]) g.net.2.evs)]
+
+def runLoopSimReal (j : Json) (early : Bool) (cs : Nat → Nat) (limit : Nat) : Except String Json := do
+  let cfg ← parseSimCfg j
+  let ij ← j.getObjVal? "infra"
+  let net : SimSorted.NetInfo Float :=
+    { M := ← getFss ij "M", lims := ← getFs ij "lims", cos := ← getFs ij "cos", sin := ← getFs ij "sin",
+      vt := fOfBits Acn.Gen.algAbsTolBits, rt := fOfBits Acn.Gen.algRelTolBits }
+  let base ← baseSched (← getStr j "algo") (← getF j "amps") (← getF j "inc") net cfg
+  let crash ← getOpt j "crash" (fun v => pure v)
+  -- the schedulers of the successive run() calls
+  let phases : List (Sim.View Float → Except EventCore.Err (Sim.Schedule Float)) ← match crash with
+    | none => pure [base]
+    | some c => do
+      let t ← getNat c "t"
+      let kind ← getStr c "kind"
+      let a ← getF c "amps"
+      if kind == "raise" then
+        -- the scheduler raises once, in period t of the first run()
+        pure [(fun v => if v.iter == t then .error .schedulerFailed else base v), base]
+      else
+        -- the scheduler hands out a rate no EVSE accepts whenever it is asked in period t
+        let bad : Sim.View Float → Except EventCore.Err (Sim.Schedule Float) := fun v =>
+          if v.iter == t then .ok (v.active.map (fun e => (e.station, [a]))) else base v
+        pure [bad, bad]
+  let ids := cfg.evs.map (·.session)
+  let mut g := SimSt.init cfg early
+  let mut outs : Array Json := #[]
+  let mut errs : Array Json := #[]
+  let mut aborts : Array Json := #[]
+  for sched in phases do
+    let mut err : Json := Json.null
+    for _ in [0:limit] do
+      if !(EventCore.guard g.core) then break
+      match SimSt.body cs cfg sched g with
+      | (g', none) =>
+        g := g'
+        outs := outs.push (jPeriod ids g)
+      | (g', some e) =>
+        g := g'; err := jS e.name
+        aborts := aborts.push (Json.mkObj [("iter", jN g.core.iter), ("state", jPeriod ids g)])
+        break
+    errs := errs.push err
+  let n := g.core.iter
+  return Json.mkObj [
+    ("err", errs.back?.getD Json.null), ("errs", Json.arr errs), ("aborts", Json.arr aborts),
+    ("periods", Json.arr outs), ("final", jSnap (g.net.1.snapshot ids)),
+    ("iterations", jN n), ("queue_empty", jB g.core.pending.isEmpty),
+    ("events", jList (fun (e : Event) => Json.arr #[jI e.ts, jS e.kind.name, jS e.sess]) g.core.eventHist),
+    ("ev_history", jList jS g.core.evHist), ("arrivals", jList jS g.net.1.arrivals),
+    ("delivered", jList (fun (e : Evse.Ev Float) => Json.arr #[jS e.session, jF e.delivered]) g.net.2.evs),
+    ("pilots", jList (fun (r : List Float) => jList jF (r.take n)) g.net.2.pilots.rows),
+    ("rates", jList (fun (r : List Float) => jList jF (r.take n)) g.net.2.rates.rows),
+    ("peak", jF g.net.2.peak), ("invoked", jList jN g.core.invoked)]
+
 def handleRun (j : Json) : Except String Json := do
   let stations ← (← getArr j "stations").mapM (fun v => v.getStr?)
   let early ← getBool j "early"
@@ -219,7 +311,12 @@ def handleRun (j : Json) : Except String Json := do
       runLoopSim stations early coreSessions (fun x => (reqs.lookup x).getD 0.0)
         (← getF v "V") (← getF v "period") (← getF v "amps") (← getF v "max_rate")
         (b.getD 0 0.0) (b.getD 1 0.0) (b.getD 2 0.0) (← getStr v "mode") cs (n + 2)
+  let simReal ← getOpt j "simreal" (fun v => pure v)
+  let simRealOut ← match simReal with
+    | none => pure Json.null
+    | some v => runLoopSimReal v early cs (n + 2)
   pure (Json.mkObj [
+    ("loop_simreal", simRealOut),
     ("loop_sim", simOut),
     ("loop_ledger", ledgerOut),
     ("loop", runLoop stations early coreSessions full cs (n + 2)),
